@@ -142,6 +142,14 @@ CHECKS["C19"] = dict(
     ref="C19",
 )
 
+CHECKS["C05"] = dict(
+    technique="Coq proof that the type test (_is_same_type, shape-checked and modelled; SIMPLE_TYPES and FURB123's table translated) accepts only an instance of exactly the expected builtin class; model tied by vm_compute correspondence on real mypy types; probe universe (10 casts x ~150 operand forms x contexts) judged against mypy's own inferred types",
+    category="proof",
+    text="Partial. SIMPLE_TYPES and FURB123's FUNC_NAME_MAPPING are translated as literals and _is_same_type must keep its recognised shape; Lib/Types.v models it over a summary of mypy type objects and same_type_exact proves for every type (through any chain of aliases) that a builtin class is matched only by an Instance/TypeInfo of exactly that class or a plain tuple type: Any, unions, None, type variables, unresolved operands never qualify; the model is compared with the real function on every distinct type the probes resolve to x 17 expected values. How an operand is resolved to a type (get_mypy_type) is not modelled; whether that resolution agrees with what mypy infers is decided by execution: 1400 probes `T(E)` (37 declared types, literals, calls, attributes, operators, subscripts, await, lambda, walrus, cast; narrowing, unreachable, loop/with/except/match contexts) are linted and FURB123 must only appear where mypy's exported type map gives exactly class T for E.",
+    note="Trusted: Coq kernel; translator shape check; model-code correspondence; mypy's BuildResult.types (export_types switched on by the harness only) as oracle. Open: declared-vs-narrowed types, IntEnum members.",
+    ref="C05",
+)
+
 NOT_APPLICABLE = {}
 
 
